@@ -308,6 +308,11 @@ def all_units(prop, keys, tier):
     for k, lot in enumerate(LOTS_2D if tier == 'thorough' else LOTS_2D[:1]):
         cfg = dict(kind='2d', p=lot, cap=None, cont='sym')
         us.append(unit('birect_any_%d' % k, cfg, keys, 'bi-rectangle nested lists for lot %s (Bisection2D), all sign patterns' % lot, max_seconds=1500))
+    # the borehole cap in the nested searches (every list the search switches to must honour it)
+    cfg = dict(kind='2d', p=LOTS_2D[0], cap='sym', cap_hi=40, cont='sym')
+    us.append(unit('birect_cap_0', cfg, keys, 'bi-rectangle nested lists for lot %s (Bisection2D), all sign patterns, every cap 2..40, both policies' % LOTS_2D[0], max_seconds=1500))
+    cfg = dict(kind='zd_zoned', p=LOTS_ZD[0], cap='sym', cap_hi=40, cont=False)
+    us.append(unit('bizoned_cap_0', cfg, keys, 'bi-zoned list for lot %s (BisectionZD), all sign patterns, every cap 2..40' % LOTS_ZD[0], max_seconds=1500))
     for k, lot in enumerate(LOTS_ZD if tier == 'thorough' else LOTS_ZD[:2]):
         cfg = dict(kind='zd_zoned', p=lot, cap=None, cont=False)
         us.append(unit('bizoned_any_%d' % k, cfg, keys, 'bi-zoned list for lot %s (BisectionZD), all sign patterns' % lot, max_seconds=1500))
